@@ -34,7 +34,7 @@ ASSUMPTIONS = [
 
 TIERS = {
     "quick":    {"runs": 1280,  "chunk": 40,  "hash_seeds": [0, 1], "max_steps": 24, "timeout": 900},
-    "thorough": {"runs": 48000, "chunk": 500, "hash_seeds": [0, 1, 2, 7], "max_steps": 30, "timeout": 3400},
+    "thorough": {"runs": 12000, "chunk": 150, "max_wall": 2400, "hash_seeds": [0, 1, 2, 7], "max_steps": 30, "timeout": 3400},
     "selftest": {"runs": 160,   "chunk": 20,  "hash_seeds": [0, 3], "max_steps": 24, "timeout": 300},
 }
 REQUIRED_PROBES = {"quick": ["unused_vtimezone_present", "unknown_id_used", "custom_id_known_via_cache",
